@@ -553,3 +553,156 @@ def rule_span(ctx):
                 res.inst(ikey, t["sp"]["file"], t["sp"]["line"], "ok", "length from token boundaries" if length.get("k") != "const" else "empty span")
     res.notes.append("span constructions examined: %d" % n)
     return res
+
+
+def rule_idxguard(ctx):
+    """R-IDXGUARD: a length test that guards a constant index covers that index"""
+    from ..mir import Fn, Flow, op_root, place_fields
+    fx = ctx.fx
+    res = RuleResult("R-IDXGUARD", "contradiction rule for constant indices: where `seq[c]` is reached only through a test of the length of "
+                     "the same sequence (a `match seq.len()`, a comparison of the length with a constant, `is_empty`), the lengths the test "
+                     "lets through are all greater than c. A test that admits a length for which the index is out of range (`len <= 1` in "
+                     "front of `seq[0]`) is a panic on the input with that length; sites without any dominating length test are left to "
+                     "the audited table of R-PANIC")
+    n = 0
+    for key, f in sorted(fx.fns.items()):
+        if f["crate"] not in fx.crates or "{promoted" in key or f["crate"] in ("axcut_examples", "scc_core_macros", "axcut_macros", "scc_macro_utils"):
+            continue
+        sites = []
+        for bi, b in enumerate(f["blocks"]):
+            t = b["term"]
+            if t["k"] != "assert" or "BoundsCheck" not in str(t.get("msg")):
+                continue
+            c = t.get("cond") or {}
+            if c.get("k") not in ("copy", "move") or c["pl"]["p"]:
+                continue
+            lt = None
+            consts = {}
+            lens = {}
+            for st in b["stmts"]:
+                if st["k"] != "assign" or st["lhs"]["p"]:
+                    continue
+                rv = st["rv"]
+                if rv["k"] == "use" and rv["op"].get("k") == "const" and isinstance(rv["op"].get("val"), int):
+                    consts[st["lhs"]["l"]] = rv["op"]["val"]
+                if rv["k"] == "unop" and rv.get("op") in ("PtrMetadata", "Len") and rv["a"].get("pl"):
+                    lens[st["lhs"]["l"]] = rv["a"]["pl"]
+                if rv["k"] == "len":
+                    lens[st["lhs"]["l"]] = rv["pl"]
+                if st["lhs"]["l"] == c["pl"]["l"] and rv["k"] == "binop" and rv["op"] == "Lt":
+                    lt = rv
+            if not lt:
+                continue
+            a, b2 = lt["a"], lt["b"]
+            cidx = a.get("val") if a.get("k") == "const" else consts.get((a.get("pl") or {}).get("l"))
+            seq = lens.get((b2.get("pl") or {}).get("l"))
+            if not isinstance(cidx, int) or isinstance(cidx, bool) or seq is None:
+                continue
+            sites.append((bi, cidx, seq, t))
+        if not sites:
+            continue
+        fn = Fn(f)
+        flow = Flow(fn)
+
+        def seq_id(pl):
+            return frozenset(flow.origins(pl["l"], tuple(place_fields(pl))))
+        # the length facts of this function: local -> ("len", sequence identity) / ("cmp", op, len local, k) / ("empty", identity)
+        facts = {}
+        for bj, bb in enumerate(f["blocks"]):
+            for st in bb["stmts"]:
+                if st["k"] != "assign" or st["lhs"]["p"]:
+                    continue
+                rv = st["rv"]
+                if rv["k"] == "unop" and rv.get("op") in ("PtrMetadata", "Len") and rv["a"].get("pl"):
+                    facts[st["lhs"]["l"]] = ("len", seq_id(rv["a"]["pl"]))
+                elif rv["k"] == "len":
+                    facts[st["lhs"]["l"]] = ("len", seq_id(rv["pl"]))
+                elif rv["k"] == "binop" and rv["op"] in ("Lt", "Le", "Gt", "Ge", "Eq", "Ne"):
+                    la, lb = rv["a"], rv["b"]
+                    if la.get("pl") and not la["pl"]["p"] and lb.get("k") == "const" and isinstance(lb.get("val"), int):
+                        facts[st["lhs"]["l"]] = ("cmp", rv["op"], la["pl"]["l"], lb["val"])
+                    elif lb.get("pl") and not lb["pl"]["p"] and la.get("k") == "const" and isinstance(la.get("val"), int):
+                        flip = {"Lt": "Gt", "Le": "Ge", "Gt": "Lt", "Ge": "Le", "Eq": "Eq", "Ne": "Ne"}[rv["op"]]
+                        facts[st["lhs"]["l"]] = ("cmp", flip, lb["pl"]["l"], la["val"])
+                elif rv["k"] in ("use",) and rv["op"].get("pl") and not rv["op"]["pl"]["p"] and rv["op"]["pl"]["l"] in facts:
+                    facts[st["lhs"]["l"]] = facts[rv["op"]["pl"]["l"]]
+            tt = bb["term"]
+            if tt["k"] == "call" and tt.get("dest") and not tt["dest"]["p"] and tt["args"] and tt["args"][0].get("pl"):
+                if tt.get("callee_name") == "len" and (tt.get("callee") or "").startswith(("core::slice", "alloc::vec", "alloc::collections::vec_deque")):
+                    facts[tt["dest"]["l"]] = ("len", seq_id(tt["args"][0]["pl"]))
+                elif tt.get("callee_name") == "is_empty" and (tt.get("callee") or "").startswith(("core::slice", "alloc::vec", "alloc::collections::vec_deque")):
+                    facts[tt["dest"]["l"]] = ("empty", seq_id(tt["args"][0]["pl"]))
+        for bi, cidx, seq, t in sites:
+            sid = seq_id(seq)
+            top = cidx + 2          # lengths 0 .. cidx+1 and "cidx+2 or more"
+            allowed = set(range(top + 1))
+            tested = False
+            for bj, bb in enumerate(f["blocks"]):
+                tt = bb["term"]
+                if tt["k"] != "switch" or not (tt["discr"].get("pl") and not tt["discr"]["pl"]["p"]):
+                    continue
+                fct = facts.get(tt["discr"]["pl"]["l"])
+                if not fct:
+                    continue
+
+                def lens_for(val, is_other, listed):
+                    """lengths (in the abstract domain) for which the switch takes this edge"""
+                    dom = set(range(top + 1))
+                    if fct[0] == "len":
+                        if not (fct[1] & sid):
+                            return None
+                        if is_other:
+                            return {x for x in dom if x not in listed or x == top}
+                        return {val} if val < top else {top}
+                    if fct[0] == "empty":
+                        if not (fct[1] & sid):
+                            return None
+                        truth = (val != 0) if not is_other else (0 in listed)
+                        return {0} if truth else dom - {0}
+                    if fct[0] == "cmp":
+                        src = facts.get(fct[2])
+                        if not src or src[0] != "len" or not (src[1] & sid):
+                            return None
+                        op, k = fct[1], fct[3]
+                        truth = (val != 0) if not is_other else (0 in listed)
+
+                        def holds(x):
+                            # x == top stands for every length >= top: decided only when k is below it
+                            return {"Lt": x < k, "Le": x <= k, "Gt": x > k, "Ge": x >= k, "Eq": x == k, "Ne": x != k}[op]
+                        out_ = set()
+                        for x in dom:
+                            if x == top and k >= top:
+                                out_.add(x)         # undecided for large lengths: keep
+                            elif holds(x) == truth:
+                                out_.add(x)
+                        return out_
+                    return None
+                listed = [v for v, _ in tt.get("targets") or []]
+                edges = [(v, tg_, False) for v, tg_ in tt.get("targets") or []] + ([(None, tt["otherwise"], True)] if tt.get("otherwise") is not None else [])
+                for v, tg_, is_other in edges:
+                    # the edge bj -> tg_ lies on every path to the site: tg_ dominates the site and is entered only from bj
+                    if not (fn.dominates(tg_, bi) and fn.dominates(bj, tg_)):
+                        continue
+                    preds = [x for x in range(len(f["blocks"])) if tg_ in fn.succ[x] and x in fn.reach]
+                    if preds != [bj] or sum(1 for _, t2, _ in edges if t2 == tg_) != 1:
+                        continue
+                    ls = lens_for(v, is_other, listed)
+                    if ls is None:
+                        continue
+                    tested = True
+                    allowed &= ls
+            if not tested:
+                continue
+            n += 1
+            ikey = "%s@index[%d]:%d" % (key, cidx, sum(1 for s_ in sites if s_[0] < bi and s_[1] == cidx))
+            low = sorted(x for x in allowed if x <= cidx)
+            if low:
+                res.inst(ikey, t["sp"]["file"], t["sp"]["line"], "violation")
+                res.violate(ikey, "%s indexes a sequence at %d behind a test of its length that also lets length %s through: on such an input the "
+                            "index is out of range and the compiler panics" % (key.split("::")[-1], cidx, " / ".join(map(str, low))), t["sp"]["file"], t["sp"]["line"])
+            else:
+                res.inst(ikey, t["sp"]["file"], t["sp"]["line"], "ok", "the dominating length test admits only lengths above %d" % cidx)
+    res.inst("constant indices behind a length test: %d" % n, None, None, "ok", nontrivial=False)
+    if n < 1:
+        raise AnalysisError("R-IDXGUARD: no constant index behind a length test found (print_clauses has one on the pinned tree)")
+    return res
